@@ -46,7 +46,7 @@ PureOps == {"Sum", "Prod", "CumSum", "CumProd", "Abs", "Sqr", "Min", "Max", "Whi
             "Which", "WhichAll", "Contains", "Rep", "Seq", "AddS", "SAdd", "SubS", "SSub", "MulS", "SMul",
             "DivS", "SDiv", "Add", "Sub", "Mul", "Div", "SumProd", "Scalar", "Scalar3", "Kron", "Union",
             "Inter", "SameC", "Extract", "UnionAll", "InterAll", "Concat", "Mean", "Center", "CovB", "VarB",
-            "Fdr", "CovO"}
+            "Fdr", "CovO", "MeanW", "CovW", "VarW"}
 
 \* Independence reduction: a call with const arguments reads only its own
 \* arguments, so it is explored from the states in which the registers it does
@@ -54,10 +54,10 @@ PureOps == {"Sum", "Prod", "CumSum", "CumProd", "Abs", "Sqr", "Min", "Max", "Whi
 \* write are explored from every state.
 Reads(op, xn, yn, zn, k) ==
   IF op \in {"UnionAll", "InterAll", "Concat"} THEN {(<<xn, yn, zn>>)[i] : i \in 1..k[1]}
-  ELSE IF op \in {"Scalar3", "Diff"} THEN {xn, yn, zn}
+  ELSE IF op \in {"Scalar3", "Diff", "CovW"} THEN {xn, yn, zn}
   ELSE IF op \in {"Add", "Sub", "Mul", "Div", "SumProd", "Scalar", "Kron", "Union", "Inter", "SameC", "Same",
                   "ContainsAll", "Extract", "AddEq", "SubEq", "MulEq", "DivEq", "Append", "Prepend", "Extend",
-                  "CovB", "CovO", "CorO", "CosO", "NormWO", "MiO"} THEN {xn, yn}
+                  "CovB", "CovO", "CorO", "CosO", "NormWO", "MiO", "MeanW", "VarW"} THEN {xn, yn}
   ELSE IF op = "Seq" THEN {} ELSE {xn}
 Quiet(op, xn, yn, zn, k) ==
   op \in PureOps => \A g \in Regs \ Reads(op, xn, yn, zn, k) : regs[g] = <<>>
@@ -149,6 +149,9 @@ ACovB         == /\ B("CovB")
 AVarB         == /\ U("VarB")
 AFdr          == /\ U("Fdr")
 ACovO         == /\ B("CovO")
+AMeanW        == /\ \E p \in Perm3, nz, pre \in 0..1 : Do("MeanW", p[1], p[2], p[3], <<nz, pre>>)
+ACovW         == /\ \E p \in Perm3, u, nz, pre \in 0..1 : Do("CovW", p[1], p[2], p[3], <<u, nz, pre>>)
+AVarW         == /\ \E p \in Perm3, u, nz, pre \in 0..1 : Do("VarW", p[1], p[2], p[3], <<u, nz, pre>>)
 
 Next ==
   \/ ASet \/ ASum \/ AProd \/ ACumSum \/ ACumProd \/ AAbs \/ ASqr \/ AMin \/ AMax
@@ -159,7 +162,7 @@ Next ==
   \/ AAdd \/ ASub \/ AMul \/ ADiv \/ ASumProd \/ AScalar \/ AScalar3 \/ AKron \/ AUnion \/ AInter
   \/ ASameC \/ ASame \/ AContainsAll \/ AExtract \/ AAddEq \/ ASubEq \/ AMulEq \/ ADivEq
   \/ AAppend \/ APrepend \/ AExtend \/ ADiff \/ AUnionAll \/ AInterAll \/ AConcat
-  \/ AMean \/ ACenter \/ ACovB \/ AVarB \/ AFdr \/ ACovO
+  \/ AMean \/ ACenter \/ ACovB \/ AVarB \/ AFdr \/ ACovO \/ AMeanW \/ ACovW \/ AVarW
 
 Spec == Init /\ [][Next]_vars
 
